@@ -499,6 +499,19 @@ def run_world(ctx, tiny, n_reads, records):
             if fdom:
                 check_follow_clause(ctx, built, isoforms, params, blocks, polya, prof, out, fdom, len(records))
             records.append(("assign", kw, out, (isoforms, params, kind)))
+            if any(x != -1 for x in polya):
+                # Props/C01Tail.lean `tail_far_never_consistent_geom`: Lean and Python form of the hypotheses agree, and the
+                # CONCLUSION holds on the real assigner wherever they hold (model := what the theorem says)
+                tcj = tail_clause_json(isoforms, params, blocks, polya)
+                records.append(("tail_clause_hyp", base, tcj, None))
+                ctx.count("tail_clause_hyp:" + ("holds" if tcj["hyp"] else "fails"))
+                if tcj["hyp"] and not vlib.is_err(out):
+                    zone = min(abs((t["exons"][-1][1] if t["strand"] == "+" else t["exons"][0][0]) - q)
+                               for t in isoforms for q in tails_of_polya(polya)["A" if t["strand"] == "+" else "T"])
+                    ctx.count("tail_clause_hyp:holds:" + ("zone_apa_delta..199" if zone < FAR_LEN else "distance>=200"))
+                    if out.get("type") in CONSISTENT or out.get("path") == "consistent":
+                        ctx.disagree("tail_clause_assign", base, {"type": "not consistent", "path": "not consistent"},
+                                     {"type": out.get("type"), "path": out.get("path")})
             # the same assignment with the MODELLED comparator (no cj input), and the comparator itself per isoform
             records.append(("assign_m", dict(base, cparams=cq), out, (isoforms, params, kind)))
             if ctx.rng.random() < 0.5:
@@ -754,6 +767,50 @@ def py_long_terminal(params, exons, front):
     L = lambda l: sum(e[1] - e[0] + 1 for e in l)
     return all(L(exons[:c] if front else exons[len(exons) - c:]) > max(params.max_fake_terminal_exon_len, params.max_missed_exon_len)
                for c in range(1, len(exons)))
+
+
+def py_junctions(blocks):
+    """Model/Interval.lean `junctionsFromBlocks` (= junctions_from_blocks: touching blocks make no junction)"""
+    return [(blocks[i][1] + 1, blocks[i + 1][0] - 1) for i in range(len(blocks) - 1) if blocks[i][1] + 1 < blocks[i + 1][0]]
+
+
+def py_end_clean(params, rj, rr, ij, ir, right):
+    """Model/JunctionSpec.lean `endCleanRight` / `endCleanLeft`: position-only form of "compare_junctions cannot emit
+    fake_terminal_exon_* / terminal_exon_misalignment_* at that end" (Lemmas/C01CmpEnd.lean compareJunctions_clean_*)"""
+    if right:
+        rl = rr[1] - rj[-1][1] if rj else 0
+        il = ir[1] - ij[-1][1] if ij else 0
+    else:
+        rl = rj[0][0] - rr[0] if rj else 0
+        il = ij[0][0] - ir[0] if ij else 0
+    return (not rj or params.max_fake_terminal_exon_len < rl) and (len(rj) <= 1 or not ij or 2 * params.delta <= abs(rl - il))
+
+
+def py_tail_clause_hyp(isoforms, params, blocks, tails):
+    """Python form of Lean `tailClauseHyp` = the hypotheses of Props/C01Tail.lean `tail_far_never_consistent_geom`
+    (`TailFar` and `EndGeom` for EVERY isoform of the gene, read not empty), position only.
+    tails = {"A": [...], "T": [...]} (tails_of_polya of the four positions, or the real finder's report).
+    Returns (hyp, [(tail_far, end_geom) per isoform])."""
+    rows = []
+    rj = py_junctions(blocks)
+    rr = (blocks[0][0], blocks[-1][1]) if blocks else None
+    for t in isoforms:
+        ex = t["exons"]
+        if t["strand"] not in ("+", "-") or not blocks:
+            rows.append((False, t["strand"] not in ("+", "-")))
+            continue
+        plus = t["strand"] == "+"
+        rel = tails["A"] if plus else tails["T"]
+        stop = ex[-1][1] if plus else ex[0][0]
+        far = bool(rel) and all(abs(stop - q) > params.apa_delta for q in rel) and py_long_terminal(params, ex, not plus)
+        geom = py_end_clean(params, rj, rr, py_junctions(ex), (ex[0][0], ex[-1][1]), plus)
+        rows.append((far, geom))
+    return bool(blocks) and all(a and b for a, b in rows), rows
+
+
+def tail_clause_json(isoforms, params, blocks, polya):
+    hyp, rows = py_tail_clause_hyp(isoforms, params, [tuple(b) for b in blocks], tails_of_polya(polya))
+    return {"hyp": hyp, "isoforms": [{"id": i, "tail_far": a, "end_geom": b} for i, (a, b) in enumerate(rows)]}
 
 
 TAIL_ARTIFACTS = {"+": ("fake_terminal_exon_right", "terminal_exon_misalignment_right", "incomplete_intron_retention_right"),
@@ -1282,7 +1339,7 @@ def skips_short_annotated_exon(isoforms, blocks):
     return any(r[0] <= e[0] and e[1] <= r[1] and e[1] - e[0] + 1 <= 100 for r in R for t in isoforms for e in t["exons"])
 
 
-def check_assignment(isoforms, delta, blocks, tail, result, judge_follow=True):
+def check_assignment(isoforms, delta, blocks, tail, result, judge_follow=True, params=None):
     """the property on one read.  result = {"type": str, "isoforms": [ids]}.  `tail` = the tail positions the read carries
     (None, the old ("A"|"T", position) pair, or {"A": [...], "T": [...]} as reported by the real polyA finder: see
     tail_status).  Returns list of (kind, detail).  judge_follow=False: only the converse clause is evaluated (annotations
@@ -1316,6 +1373,23 @@ def check_assignment(isoforms, delta, blocks, tail, result, judge_follow=True):
             followed[t["id"]] = f
     rep = [i for i in result["isoforms"] if i in by_id]
     typ = result["type"]
+    if params is not None and has_tail:
+        # the TAIL CLAUSE exactly as proved (Props/C01Tail.lean `tail_far_never_consistent_geom`, proof-closure round):
+        # every reported tail position farther than apa_delta from the 3' end of EVERY isoform of the gene (`TailFar`, incl.
+        # "no missed terminal exons") and the read's end `EndGeom`-clean for every isoform  =>  never unique /
+        # unique_minor_difference / ambiguous.  Judged in EVERY annotation (the theorem has no well-formedness hypothesis)
+        # and at every distance beyond apa_delta: the zone apa_delta < distance < FAR_LEN used to be "not constrained".
+        hyp, _rows = py_tail_clause_hyp(isoforms, params, blocks, tails)
+        if hyp:
+            dist = min(abs((t["exons"][-1][1] if t["strand"] == "+" else t["exons"][0][0]) - q)
+                       for t in isoforms for q in tails["A" if t["strand"] == "+" else "T"])
+            monitor_count("oracle:tail_clause_judged(%s)" % ("zone apa_delta<d<%d" % FAR_LEN if dist < FAR_LEN else "d>=%d" % FAR_LEN))
+            if typ in CONSISTENT:
+                fails.append(("tail_far_consistent", "hypotheses of tail_far_never_consistent_geom hold (nearest 3' end %d bp from "
+                              "the tail, apa_delta %d) but the read is reported %s %s" % (dist, params.apa_delta, typ, rep)))
+                return fails
+        else:
+            monitor_count("oracle:tail_clause_hypotheses_fail")
     if followed_struct and not judge_follow:
         return fails
 
@@ -1603,7 +1677,44 @@ def oracle_inprocess_case(isoforms, strategy, blocks, polya, delta_override=None
     built = Built(isoforms, params)
     blocks = [tuple(b) for b in blocks]
     res = inprocess_result(built, blocks, polya)
-    return check_assignment(isoforms, params.delta, blocks, tail_of(blocks, polya), res), res
+    return check_assignment(isoforms, params.delta, blocks, tail_of(blocks, polya), res, params=params), res
+
+
+def zone_read(rng, t, blocks, polya, params, apply=False):
+    """a follower of T that reaches T's 3' terminal exon, cut so that its aligned end lies apa_delta+1 .. FAR_LEN-1 bases
+    before T's annotated 3' end, with the tail positions the finder reports for an A-/T-rich aligned end (internal), a
+    soft-clipped tail (external) or both.  apply=False: can such a read be made (terminal exon long enough, more than
+    max_fake_terminal_exon_len bases left)?  apply=True: returns the blocks and fills `polya`."""
+    plus = t["strand"] == "+"
+    ex = t["exons"]
+    term = ex[-1] if plus else ex[0]
+    b = blocks[-1] if plus else blocks[0]
+    if not (b[0] <= term[1] and term[0] <= b[1]):
+        return None
+    room = (term[1] - b[0]) if plus else (b[1] - term[0])       # bases of the terminal exon the read may keep
+    lo, hi = params.apa_delta + 1, FAR_LEN - 1
+    hi = min(hi, room - params.max_fake_terminal_exon_len - 1)
+    if hi < lo:
+        return None
+    if not apply:
+        return True
+    d = rng.choice([lo, lo + 1, hi, rng.randint(lo, hi), rng.randint(lo, hi)])
+    how = rng.choice(["int", "int", "ext", "both"])
+    if plus:
+        e = term[1] - d
+        blocks = blocks[:-1] + [(b[0], e)]
+        if how in ("int", "both"):
+            polya[2] = e - rng.randint(0, min(20, e - b[0], d - lo))
+        if how in ("ext", "both"):
+            polya[0] = e + rng.choice([0, 1])
+    else:
+        e = term[0] + d
+        blocks = [(e, b[1])] + blocks[1:]
+        if how in ("int", "both"):
+            polya[3] = e + rng.randint(0, min(20, b[1] - e, d - lo))
+        if how in ("ext", "both"):
+            polya[1] = max(1, e - rng.choice([0, 1]))
+    return blocks
 
 
 def oracle_inprocess(ctx, n_worlds, reads_per_iso, user_delta=None):
@@ -1639,6 +1750,11 @@ def oracle_inprocess(ctx, n_worlds, reads_per_iso, user_delta=None):
                         elif t["strand"] == "-" and at5:
                             blocks = [(t["exons"][0][0], blocks[0][1])] + blocks[1:]
                             polya[1] = max(1, blocks[0][0] - 1)
+                    elif kind == "follow" and (at3 if t["strand"] == "+" else at5) and rng.random() < 0.18 and \
+                            zone_read(rng, t, blocks, polya, params):
+                        # proof-closure round: the zone apa_delta < distance < FAR_LEN (judged by the tail clause only)
+                        kind = "prime_zone"
+                        blocks = zone_read(rng, t, blocks, polya, params, apply=True)
                     elif kind == "follow" and rng.random() < 0.25:
                         # audit-2 C01-a (internal priming): the finder reports a tail at / just inside the aligned end of a
                         # read that is truncated anywhere: internal position (A-rich aligned end), external position (soft
@@ -1666,7 +1782,7 @@ def oracle_inprocess(ctx, n_worlds, reads_per_iso, user_delta=None):
                         continue
                     n += 1
                     ctx.count("oracle:" + kind + ("" if user_delta is None else ":user_delta"))
-                    for k, detail in check_assignment(isoforms, params.delta, blocks, tail_of(blocks, polya), res):
+                    for k, detail in check_assignment(isoforms, params.delta, blocks, tail_of(blocks, polya), res, params=params):
                         ctx.fail(k, {"mode": "inprocess", "isoforms": strip(isoforms), "strategy": strategy, "delta": user_delta,
                                      "blocks": [list(b) for b in blocks], "polya": polya, "reported_events": res["events"]},
                                  detail + " | events %s" % res["events"])
@@ -2290,7 +2406,8 @@ def oracle_pipeline(ctx, strategies, n_chroms, clusters_per_chrom, reads_per_iso
         user_delta = None
         if isinstance(strategy, (tuple, list)):
             strategy, user_delta = strategy
-        delta = make_params(strategy, delta=user_delta).delta
+        run_params = make_params(strategy, delta=user_delta)
+        delta = run_params.delta
         d = P.scratch("isoverif_c01_")
         try:
             ds, clusters, truth = build_pipeline_dataset(rng, n_chroms, clusters_per_chrom, reads_per_iso, min(delta, 12)
@@ -2372,7 +2489,7 @@ def oracle_pipeline(ctx, strategies, n_chroms, clusters_per_chrom, reads_per_iso
                 tails = tail_of(blocks, polya)
                 if tails:
                     ctx.count("pipeline_tail:%s:%s" % (tr["kind"], "+".join(k for k, v in zip(("extA", "extT", "intA", "intT"), polya) if v != -1)))
-                for k, detail in check_assignment(iso, delta, blocks, tails, res):
+                for k, detail in check_assignment(iso, delta, blocks, tails, res, params=run_params):
                     ctx.fail(k, {"mode": "pipeline", "isoforms": strip(iso), "strategy": strategy, "blocks": [list(b) for b in blocks],
                                  "polya": polya, "delta": user_delta, "derived_from": tr["tid"], "read_kind": tr["kind"],
                                  "reported_events": res["events"], "gene_lines_narrowed": narrow_genes},
